@@ -24,7 +24,7 @@ from mir2smt.exec import StrV, OpaqueV, IntV, BoolV, AggV, EnumV, RefV, ListV, U
 from mir2smt import envlib as E
 from mir2smt.builtins import deref
 
-CRATES = ["ckb-constant", "ckb-occupied-capacity-core", "ckb-types", "ckb-chain-spec", "ckb-snapshot", "ckb-tx-pool"]
+CRATES = ["ckb-constant", "ckb-occupied-capacity-core", "ckb-types", "ckb-chain-spec", "ckb-snapshot", "ckb-verification-contextual", "ckb-tx-pool"]
 USIZE = (1 << 64) - 1
 
 
@@ -195,6 +195,8 @@ def _assembler_run(S, fname, nupvars=("self", "tx_pool")):
         return h
 
     def poll(ex, c_, a, d):
+        if "prepare_uncles" in nmv(ex, a[0]):
+            return EnumV(0, ((0, (OpaqueV("prepared_uncles", "Vec<UncleBlockView>"),)),), d)
         return EnumV(0, ((0, (OpaqueV("guard_of_" + nmv(ex, a[0]), "Guard"),)),), d)
     entries = [AggV(tuple((sizes[k] if fld == "size" else OpaqueV(f"e{k}.{fld}", "?")) for fld, _ in sorted(te.items(), key=lambda kv: kv[1])), "TxEntry") for k in range(2)]
 
@@ -227,7 +229,10 @@ def _assembler_run(S, fname, nupvars=("self", "tx_pool")):
         (E.rx(r"BlockAssembler::calc_dao$"), calc_dao),
         (E.rx(r" as Iterator>::sum::<usize>$"), _it_sum),
         (E.rx(r"BlockTemplateBuilder::from_template$"), lambda ex, c_, a, d: OpaqueV("builder_from(" + nmv(ex, a[0])[:40] + ")", d)),
-        (E.rx(r"BlockTemplateBuilder::(set_proposals|set_transactions)$"), rec("builder_set", lambda ex, d: ex.ctx.ref_to(OpaqueV("builder", "BlockTemplateBuilder")), 1)),
+        (E.rx(r"Consensus::max_uncles_num$"), lambda ex, c_, a, d: ex.ctx.int("max_uncles_num", "usize")),
+        (E.rx(r"UncleBlockView>?::serialized_size_in_block$"), lambda ex, c_, a, d: ex.ctx.int("uncle_size_in_block", "usize")),
+        (E.rx(r"BlockAssembler::prepare_uncles$"), lambda ex, c_, a, d: OpaqueV("prepare_uncles_future", d)),
+        (E.rx(r"BlockTemplateBuilder::(set_proposals|set_transactions|set_uncles)$"), rec("builder_set", lambda ex, d: ex.ctx.ref_to(OpaqueV("builder", "BlockTemplateBuilder")), 1)),
         (E.rx(r"BlockTemplateBuilder::(work_id|current_time|dao|extension)$"), lambda ex, c_, a, d: a[0]),
         (E.rx(r"BlockAssembler::build_extension$"), lambda ex, c_, a, d: mk_result(ex.ctx.bool("extension_ok").t, mk_option(ex.ctx.bool("has_extension").t, OpaqueV("new_extension", "Bytes"), "Option<Bytes>"), OpaqueV("ext_err", "AnyError"), d)),
         (E.rx(r"core::slice::<impl \[.*ProposalShortId\]>::iter$|<Vec<.*ProposalShortId> as Deref>::deref$"), lambda ex, c_, a, d: OpaqueV("iter(" + nmv(ex, a[0]) + ")", d)),
@@ -237,7 +242,7 @@ def _assembler_run(S, fname, nupvars=("self", "tx_pool")):
         (E.rx(r"unix_time_as_millis$"), lambda ex, c_, a, d: ex.ctx.int("now", "u64")),
         (E.rx(r"as Clone>::clone$"), lambda ex, c_, a, d: (OpaqueV(nmv(ex, a[0]), d) if isinstance(deref(ex, a[0]), OpaqueV) else deref(ex, a[0]))),
         (E.rx(r"<Vec<.*> as Deref>::deref$"), lambda ex, c_, a, d: a[0]),
-        (E.rx(r"Vec::<.*>::len$"), lambda ex, c_, a, d: (IntV(len(deref(ex, a[0]).items), "usize") if isinstance(deref(ex, a[0]), ListV) else ex.ctx.int("len_" + re.sub(r"[^A-Za-z0-9]", "_", nmv(ex, a[0])), "usize"))),
+        (E.rx(r"Vec::<.*>::len$"), lambda ex, c_, a, d: (IntV(len(deref(ex, a[0]).items), "usize") if isinstance(deref(ex, a[0]), ListV) else ex.ctx.int(("n_new_uncles" if nmv(ex, a[0]) == "prepared_uncles" else "len_" + re.sub(r"[^A-Za-z0-9]", "_", nmv(ex, a[0]))), "usize"))),
     ] + list(E.LIST_ADAPTORS)
     ups = {ix["self"]: ctx.ref_to(OpaqueV("assembler", "BlockAssembler"))}
     if "tx_pool" in ix:
@@ -346,6 +351,38 @@ def m4_incremental_updates(S):
     S.prove(ctx, ob, "update_proposals_records_exactly_the_new_proposals_part_and_total_or_leaves_the_template_alone", pre, T.and_(*goals) if goals else False)
     S.prove(ctx, ob, "update_proposals_adopts_iff_same_tip_and_the_new_total_stays_below_max_block_bytes", pre, T.iff(T.or_(*adopted) if adopted else False, T.and_(T.not_(tip_changed.t), T.lt(new_total, maxb.t))))
     S.witness(ctx, ob, "update_proposals_reach_rejected_for_size", pre + [T.not_(tip_changed.t)], T.ge(new_total, maxb.t))
+    # ---------------- update_uncles
+    L = _assembler_run(S, "update_uncles", nupvars=("self",))
+    ctx, ps, calls, maxb, template, old_size, cur_cell, ct, ts = (L[k] for k in ("ctx", "ps", "calls", "maxb", "template", "old_size", "cur_cell", "ct", "ts"))
+    old = {k: as_int(old_size.fields[i]) for k, i in ts.items()}
+    nunc, maxu, cur_unc, usz = ctx.int("n_new_uncles", "usize"), ctx.int("max_uncles_num", "usize"), ctx.int("len_old_uncles", "usize"), ctx.int("uncle_size_in_block", "usize")
+    pre = [T.le(maxb.t, 1 << 40), T.le(nunc.t, 1 << 8), T.ge(usz.t, 1), T.le(usz.t, 1 << 20)] + [T.le(v, 1 << 40) for v in old.values()] + [T.le(old["uncles"], old["total"])]
+    rs = returns(ps)
+    ready = [p for p in rs if isinstance(p.value, EnumV) and p.value.disc == 0]
+    S.prove(ctx, ob, "update_uncles_completes_without_panicking_or_suspending", pre, bool(ready and len(ready) == len(rs)) and T.not_(cond_of(panics(ps))))
+    new_part = T.mul(nunc.t, usz.t)
+    new_total = T.add(T.sub(old["total"], old["uncles"]), new_part)
+    goals, adopted = [], []
+    for p in ready:
+        post = post_value(ctx, p, cur_cell)
+        took = any(e[0] == "c13" and e[1] == "builder_set" for e in p.log)
+        if not isinstance(post, AggV):
+            goals.append(False)
+            continue
+        sz, tm = post.fields[ct["size"]], post.fields[ct["template"]]
+        if took:
+            adopted.append(p.cond())
+            goals.append(T.implies(p.cond(), T.and_(T.eq(as_int(sz.fields[ts["uncles"]]), new_part), T.eq(as_int(sz.fields[ts["total"]]), new_total),
+                                                    T.eq(as_int(sz.fields[ts["txs"]]), old["txs"]), T.eq(as_int(sz.fields[ts["proposals"]]), old["proposals"]), bool(nmv(None, tm) == "built_template"))))
+        else:
+            goals.append(bool(nmv(None, tm) == nmv(None, template) and nmv(None, sz) == nmv(None, old_size)))
+    S.prove(ctx, ob, "update_uncles_records_exactly_the_new_uncles_part_and_total_or_leaves_the_template_alone", pre, T.and_(*goals) if goals else False)
+    remain = T.ite(T.ge(maxb.t, old["total"]), T.sub(maxb.t, old["total"]), 0)
+    S.prove(ctx, ob, "update_uncles_adopts_iff_room_for_an_uncle_and_the_new_total_stays_below_max_block_bytes", pre,
+            T.iff(T.or_(*adopted) if adopted else False, T.and_(T.lt(cur_unc.t, maxu.t), T.gt(remain, usz.t), T.lt(new_total, maxb.t))))
+    bs = {n for t, n, _ in calls if t == "builder_set"}
+    S.prove(ctx, ob, "update_uncles_new_template_takes_the_freshly_prepared_uncles", [], bool(bs == {("prepared_uncles",)}), extra={"note": str(bs)})
+    S.witness(ctx, ob, "update_uncles_reach_adopted", pre, T.or_(*adopted) if adopted else False)
     # ---------------- update_transactions
     L = _assembler_run(S, "update_transactions")
     ctx, ps, calls, maxb, maxc, basic, tip_changed, sizes, template, old_size, cur_cell, entries, ct, ts = (L[k] for k in ("ctx", "ps", "calls", "maxb", "maxc", "basic", "tip_changed", "sizes", "template", "old_size", "cur_cell", "entries", "ct", "ts"))
@@ -543,3 +580,223 @@ LEVEL_TEXT = ("Decided on the real MIR: template size totals replace exactly the
 LEVEL_NOTE = "Partial claim (size accounting, limits, uncle selection). Package selection, cellbase/DAO/extension, whole-template verification: outside."
 TECHNIQUE = "symbolic execution of rustc MIR (incl. coroutine body) -> integer-theory SMT (cvc5 + z3)"
 DESIGN_REF = "DESIGN.md section 4 (C13)"
+
+
+def m6_cellbase_reward_output_rule(S):
+    """`BlockAssembler::build_cellbase` against `RewardVerifier::verify` (the node's own check of the same cellbase): the template's cellbase carries no reward output exactly when
+    the verifier demands an empty cellbase -- candidate number (tip + 1) within the finalization delay, or a reward too small to create a cell -- and otherwise one output with the
+    finalised reward total and the target lock the calculator returned for the tip; the cellbase input is the cellbase input of the candidate number"""
+    from mir2smt.srcinfo import field_index
+    ob = "C13.m6"
+    fa = _find(S, lambda x: x.short == "build_cellbase" and "block_assembler/mod.rs" in x.name and "{closure" not in x.name and len(x.params) == 2, "BlockAssembler::build_cellbase")
+    fv = [x for x in S.prog.funcs if x.kind == "fn" and x.short == "verify" and "contextual_block_verifier.rs:223" in x.name and "{closure" not in x.name]
+    if len(fv) != 1:
+        fv = [x for x in S.prog.funcs if x.kind == "fn" and x.short == "verify" and "contextual_block_verifier.rs" in x.name and "{closure" not in x.name and len(x.params) == 1 and "RewardVerifier" in x.params[0][1]]
+    if len(fv) != 1:
+        raise Inconclusive(f"RewardVerifier::verify: {len(fv)} candidates")
+    br = field_index("util/types/src/core/reward.rs", "BlockReward")
+
+    def common(ctx, log):
+        def nm(ex, v):
+            v = deref(ex, v) if ex is not None else v
+            if isinstance(v, IntV):
+                return v.t[2] if isinstance(v.t, tuple) and v.t[0] == "var" else str(v.t)
+            if isinstance(v, AggV):
+                return "(" + ",".join(nm(ex, x) for x in v.fields) + ")"
+            return getattr(v, "name", None) or type(v).__name__
+
+        def setter(ex, c, a, d):
+            fld = re.sub(r"::<.*>$", "", c).split("::")[-1]
+            b = nm(ex, a[0])
+            ex.log.append(("set", c, [re.sub(r"::<.*>$", "", c).split("::")[-2], fld, nm(ex, a[1])], list(ex.pc)))
+            return OpaqueV(b + ("," if not b.endswith("{") else "") + fld + "=" + nm(ex, a[1]), d)
+        reward = AggV(tuple((AggV((ctx.int("reward_total", "u64"),), "Capacity") if k == "total" else AggV((ctx.int("reward_" + k, "u64"),), "Capacity")) for k, _ in sorted(br.items(), key=lambda kv: kv[1])), "BlockReward")
+        fin = lambda ex, c, a, d: mk_result(ex.ctx.bool("reward_ok").t, AggV((OpaqueV("target_lock", "Script"), reward), "(Script, BlockReward)"), OpaqueV("dao_err", "DaoError"), d)
+        return nm, [
+            (E.rx(r"Consensus::finalization_delay_length$"), lambda ex, c, a, d: ex.ctx.int("finalization_delay_length", "u64")),
+            (E.rx(r"HeaderView::number$"), lambda ex, c, a, d: ex.ctx.int("tip_number", "u64")),
+            (E.rx(r"block_reward_to_finalize$|finalize_block_reward$"), fin),
+            (E.rx(r"CellOutput>?::is_lack_of_capacity$"), lambda ex, c, a, d: (log.append(("lack_of", nm(ex, a[0]))), mk_result(ex.ctx.bool("capacity_ok").t, ex.ctx.bool("reward_too_small_for_a_cell"), OpaqueV("cap_err", "CapacityError"), d))[1]),
+            (E.rx(r"::new_builder$|Builder as Default>::default$"), lambda ex, c, a, d: OpaqueV(re.search(r"(\w+)Builder", d + c).group(1) + "{", d)),
+            (E.rx(r"Builder>?::build$|TransactionBuilder::build$"), lambda ex, c, a, d: OpaqueV(nm(ex, a[0]) + "}", d)),
+            (E.rx(r"(CellOutputBuilder|TransactionBuilder)::(capacity|lock|input|witness|output|output_data)(::<.*>)?$"), setter),
+        ]
+    # ---------------- the assembler
+    ctx = S.ctx()
+    ctx.uninterpreted_unknown_calls = True
+    log = []
+    nm, env = common(ctx, log)
+    ctx.env = list(E.LOGGING_OFF) + [
+        (E.rx(r"Snapshot::tip_header$"), lambda ex, c, a, d: ex.ctx.ref_to(OpaqueV("tip", "HeaderView"))),
+        (E.rx(r"Snapshot::consensus$"), lambda ex, c, a, d: ex.ctx.ref_to(OpaqueV("consensus", "Consensus"))),
+        (E.rx(r"block_in_place::<"), lambda ex, c, a, d: ex.call_value(ex.top_frame, a[0], [], d)),
+        (E.rx(r"RewardCalculator::<.*>::new$"), lambda ex, c, a, d: OpaqueV("calculator", d)),
+        (E.rx(r"build_cellbase_witness$"), lambda ex, c, a, d: OpaqueV("cellbase_witness", d)),
+        (E.rx(r"CellInput>?::new_cellbase_input$"), lambda ex, c, a, d: OpaqueV("cellbase_input(" + nm(ex, a[0]) + ")", d)),
+        (E.rx(r"::as_bytes$|Bytes as Default>::default$|Capacity::zero$"), E.opaque_call()),
+    ] + env[:2] + env[2:]
+    ps = S.run(ctx, fa, [ctx.ref_to(OpaqueV("config", "BlockAssemblerConfig")), ctx.ref_to(OpaqueV("snapshot", "Snapshot"))])
+    N, D = ctx.int("tip_number", "u64"), ctx.int("finalization_delay_length", "u64")
+    small, rok, cok = ctx.bool("reward_too_small_for_a_cell").t, ctx.bool("reward_ok").t, ctx.bool("capacity_ok").t
+    pre = [T.lt(N.t, (1 << 64) - 1)]
+    S.prove(ctx, ob, "assembler_no_panic", pre, T.not_(cond_of(panics(ps))))
+    with_out, without, bad_shape = [], [], []
+    for p in returns(ps):
+        if not (isinstance(p.value, EnumV) and p.value.disc == 0):
+            continue
+        sets = [e[2] for e in p.log if e[0] == "set"]
+        outs = [x for x in sets if x[0] == "TransactionBuilder" and x[1] == "output"]
+        ins = [x for x in sets if x[0] == "TransactionBuilder" and x[1] == "input"]
+        (with_out if outs else without).append(p.cond())
+        ok = len(ins) == 1 and ins[0][2].startswith("cellbase_input(") and len(outs) <= 1
+        if outs:
+            ok = ok and outs[0][2] == "CellOutput{capacity=(reward_total),lock=target_lock}"
+        if not ok:
+            bad_shape.append(p.cond())
+        if os.environ.get("VERIF_DEBUG") and not ok:
+            print("DEBUG cellbase sets", sets)
+    has_out = T.or_(*with_out) if with_out else False
+    no_out = T.or_(*without) if without else False
+    rule_empty = T.or_(T.le(T.add(N.t, 1), D.t), small)
+    S.prove(ctx, ob, "assembler_builds_a_cellbase_iff_reward_and_capacity_computations_succeed", pre, T.iff(T.or_(has_out, no_out), T.and_(rok, cok)))
+    S.prove(ctx, ob, "assembler_leaves_the_reward_output_out_iff_within_the_finalization_delay_or_reward_too_small", pre + [rok, cok], T.and_(T.iff(no_out, rule_empty), T.iff(has_out, T.not_(rule_empty))))
+    S.prove(ctx, ob, "assembler_output_is_the_finalised_total_to_the_target_lock_and_the_input_is_the_candidates_cellbase_input", pre, T.not_(T.or_(*bad_shape)) if bad_shape else True)
+    lk = {x[1] for x in log if x[0] == "lack_of"}
+    S.prove(ctx, ob, "assembler_smallness_is_judged_on_that_very_output", [], bool(lk == {"CellOutput{capacity=(reward_total),lock=target_lock}"}), extra={"note": str(lk)})
+    # ---------------- the verifier
+    ctx2 = S.ctx()
+    ctx2.uninterpreted_unknown_calls = True
+    log2 = []
+    nm2, env2 = common(ctx2, log2)
+    empty = ctx2.bool("cellbase_has_no_outputs")
+    ctx2.env = list(E.LOGGING_OFF) + [
+        (E.rx(r"CellOutputVec::is_empty$"), lambda ex, c, a, d: empty),
+        (E.rx(r"TransactionView::outputs$"), lambda ex, c, a, d: OpaqueV("outputs", d)),
+        (E.rx(r"TransactionView::outputs_capacity$"), lambda ex, c, a, d: mk_result(True, AggV((ex.ctx.int("cellbase_outputs_capacity", "u64"),), "Capacity"), OpaqueV("cap_err", "CapacityError"), d)),
+        (E.rx(r"Capacity as PartialEq>::(ne|eq)$"), lambda ex, c, a, d: BoolV(T.ne(as_int(deref(ex, a[0])), as_int(deref(ex, a[1]))) if c.endswith("ne") else T.eq(as_int(deref(ex, a[0])), as_int(deref(ex, a[1]))))),
+        (E.rx(r"Script as PartialEq>::(ne|eq)$"), lambda ex, c, a, d: BoolV(T.not_(ex.ctx.bool("cellbase_lock_is_the_target").t) if c.endswith("ne") else ex.ctx.bool("cellbase_lock_is_the_target").t)),
+        (E.rx(r"CellOutputVec::get$"), lambda ex, c, a, d: mk_option(T.not_(empty.t), OpaqueV("output0", "CellOutput"), d)),
+        (E.rx(r"CellOutput::lock$"), lambda ex, c, a, d: OpaqueV("lock_of_output0", d)),
+        (E.rx(r"Capacity::zero$|as Clone>::clone$"), E.opaque_call()),
+    ] + env2
+    from mir2smt.srcinfo import field_index as _fi
+    rv = _fi("verification/contextual/src/contextual_block_verifier.rs", "RewardVerifier")
+    me = AggV(tuple({"resolved": ctx2.ref_to(ListV((ctx2.ref_to(OpaqueV("cellbase_rtx", "ResolvedTransaction")),), "[Arc<ResolvedTransaction>]"))}.get(k, ctx2.ref_to(OpaqueV(k, "?"))) for k, _ in sorted(rv.items(), key=lambda kv: kv[1])), "RewardVerifier")
+    ps2 = S.run(ctx2, fv[0], [ctx2.ref_to(me)])
+    N2, D2 = ctx2.int("tip_number", "u64"), ctx2.int("finalization_delay_length", "u64")
+    small2, rok2, cok2 = ctx2.bool("reward_too_small_for_a_cell").t, ctx2.bool("reward_ok").t, ctx2.bool("capacity_ok").t
+    # a cell that does not lack capacity has a positive capacity; a cellbase without outputs has output capacity zero
+    pre2 = [T.lt(N2.t, (1 << 64) - 1), T.implies(T.not_(small2), T.ge(ctx2.int("reward_total", "u64").t, 1)), T.implies(empty.t, T.eq(ctx2.int("cellbase_outputs_capacity", "u64").t, 0))]
+    S.prove(ctx2, ob, "verifier_no_panic", pre2, T.not_(cond_of(panics(ps2))))
+    accept = T.or_(*[T.and_(p.cond(), (p.value.disc == 0) if isinstance(p.value.disc, int) else T.eq(p.value.disc, 0)) for p in returns(ps2) if isinstance(p.value, EnumV)])
+    rule_empty2 = T.or_(T.le(T.add(N2.t, 1), D2.t), small2)
+    S.prove(ctx2, ob, "verifier_accepts_an_empty_cellbase_iff_within_the_finalization_delay_or_reward_too_small", pre2 + [rok2, cok2, empty.t], T.iff(accept, rule_empty2))
+    S.prove(ctx2, ob, "verifier_accepts_a_paying_cellbase_iff_a_target_exists_and_amount_and_lock_match", pre2 + [rok2, cok2, T.not_(empty.t)],
+            T.iff(accept, T.and_(T.not_(rule_empty2), T.eq(ctx2.int("cellbase_outputs_capacity", "u64").t, ctx2.int("reward_total", "u64").t), ctx2.bool("cellbase_lock_is_the_target").t)))
+    S.witness(ctx2, ob, "verifier_reach_boundary", pre2 + [rok2, cok2], T.and_(T.eq(T.add(N2.t, 1), D2.t), accept))
+
+
+OBLIGATIONS = OBLIGATIONS + [m6_cellbase_reward_output_rule]
+
+
+def m7_calc_dao_rechecks_against_what_is_in_the_template(S):
+    """`BlockAssembler::calc_dao` re-resolves the packaged transactions for the template: the k-th entry is checked against the snapshot overlaid with the cellbase and exactly the
+    transactions ACCEPTED before it -- not the dropped ones, not later ones -- so a transaction whose parent was dropped cannot stay (its parent's outputs are not visible);
+    dropped entries are reported, kept entries keep their order, and the DAO field is computed over cellbase + kept entries (three packaged entries, each check may fail)"""
+    ob = "C13.m7"
+    f = _find(S, lambda x: x.short == "calc_dao" and "block_assembler/mod.rs" in x.name and "{closure" not in x.name and len(x.params) == 4, "BlockAssembler::calc_dao")
+    from mir2smt.srcinfo import struct_fields
+    te = struct_fields("tx-pool/src/component/entry.rs", "TxEntry")
+    ctx = S.ctx(unwind=10)
+    ctx.uninterpreted_unknown_calls = True
+    ctx.max_paths = 400
+    n = 3
+    ents = [AggV(tuple(OpaqueV(f"e{k}.{fld}", "?") for fld in te), "TxEntry") for k in range(n)]
+
+    def nm(ex, v):
+        v = deref(ex, v) if ex is not None else v
+        if isinstance(v, ListV):
+            return "[" + ",".join(nm(ex, x) for x in v.items) + "]"
+        if isinstance(v, AggV) and isinstance(v.ty, str) and v.ty.startswith("ListIter"):
+            return "[" + ",".join(nm(ex, x) for x in E._rest(ex, v)) + "]"
+        if isinstance(v, AggV) and v.ty == "TxEntry":
+            return v.fields[0].name.split(".")[0]
+        if isinstance(v, AggV):
+            return "(" + ",".join(nm(ex, x) for x in v.fields) + ")"
+        return getattr(v, "name", None) or type(v).__name__
+    checks = []
+
+    def tc_new(ex, c, a, d):
+        items = E._as_items(ex, deref(ex, a[0])) or []
+        return ListV(tuple(OpaqueV(nm(ex, x), "tx") for x in items), "TransactionsChecker")
+
+    def tc_insert(ex, c, a, d):
+        from mir2smt.builtins import _wr
+        v = deref(ex, a[0])
+        _wr(ex, a[0], ListV(v.items + (OpaqueV(nm(ex, a[1]), "tx"),), v.ty))
+        return UNIT
+
+    def overlay_new(ex, c, a, d):
+        return AggV((ListV(tuple(deref(ex, a[0]).items), "snapshot_of_checker"), OpaqueV(nm(ex, a[1]), "?")), "OverlayCellChecker")
+
+    def check(ex, c, a, d):
+        who = nm(ex, a[0]).split(".")[0].replace("rtx_of_", "")
+        ov = deref(ex, a[2])
+        seen = [x.name for x in ov.fields[0].items] if isinstance(ov, AggV) and ov.ty == "OverlayCellChecker" else None
+        ex.log.append(("check", c, [who, seen], list(ex.pc)))
+        return mk_result(ex.ctx.bool(f"resolves_{who}").t, UNIT, OpaqueV(f"outpoint_error_{who}", "OutPointError"), d)
+    ctx.env = list(E.LOGGING_OFF) + [
+        (E.rx(r"Snapshot::tip_header$|Snapshot::consensus$"), E.opaque_call()),
+        (E.rx(r"HashSet::<.*OutPoint>::new$"), lambda ex, c, a, d: OpaqueV("seen_inputs", d)),
+        (E.rx(r"^(std::iter::|core::iter::)?once::<"), lambda ex, c, a, d: E._owned([a[0]])),
+        (E.rx(r"TransactionsChecker::new::<"), tc_new),
+        (E.rx(r"TransactionsChecker::insert$"), tc_insert),
+        (E.rx(r"OverlayCellChecker::<.*>::new$"), overlay_new),
+        (E.rx(r"block_in_place::<"), lambda ex, c, a, d: ex.call_value(ex.top_frame, a[0], [], d)),
+        (E.rx(r"<Arc<.*ResolvedTransaction> as Deref>::deref$"), lambda ex, c, a, d: ex.ctx.ref_to(OpaqueV("rtx_of_" + nm(ex, a[0]), "ResolvedTransaction"))),
+        (E.rx(r"ResolvedTransaction::check::<"), check),
+        (E.rx(r"TxEntry::transaction$"), lambda ex, c, a, d: ex.ctx.ref_to(OpaqueV("tx_of_" + nm(ex, a[0]), "TransactionView"))),
+        (E.rx(r"TxEntry::proposal_short_id$"), lambda ex, c, a, d: OpaqueV("id_of_" + nm(ex, a[0]), d)),
+        (E.rx(r"OutPointError::out_point$"), lambda ex, c, a, d: mk_option(True, ex.ctx.ref_to(OpaqueV("op_of_" + nm(ex, a[0]), "OutPoint")), d)),
+        (E.rx(r"TxEntry::dummy_resolve$"), lambda ex, c, a, d: AggV(tuple(OpaqueV(f"cellbase_entry.{fld}", "?") for fld in te), "TxEntry")),
+        (E.rx(r" as Iterator>::chain::<"), lambda ex, c, a, d: E._owned((E._as_items(ex, deref(ex, a[0])) or []) + (E._as_items(ex, deref(ex, a[1])) or []))),
+        (E.rx(r"DaoCalculator::<.*>::new$|borrow_as_data_loader$|Capacity::zero$"), E.opaque_call()),
+        (E.rx(r"dao_field_with_current_epoch::<"), lambda ex, c, a, d: (ex.log.append(("dao", c, [nm(ex, a[1])], list(ex.pc))), mk_result(True, OpaqueV("dao", "Byte32"), OpaqueV("dao_err", "DaoError"), d))[1]),
+        (E.rx(r"as Clone>::clone$|::cloned$"), lambda ex, c, a, d: deref(ex, a[0]) if not isinstance(a[0], EnumV) else a[0]),
+        (E.rx(r"HeaderView::(number|hash)$|TransactionView::hash$"), E.opaque_call()),
+    ] + list(E.LIST_ADAPTORS)
+    ps = S.run(ctx, f, [ctx.ref_to(OpaqueV("snapshot", "Snapshot")), ctx.ref_to(OpaqueV("epoch", "EpochExt")), OpaqueV("cellbase", "TransactionView"), ListV(tuple(ents), "Vec<TxEntry>")])
+    S.prove(ctx, ob, "no_panic", [], T.not_(cond_of(panics(ps))))
+    ok_b = [ctx.bool(f"resolves_e{k}").t for k in range(n)]
+    goals = []
+    for p in returns(ps):
+        cks = [e[2] for e in p.log if e[0] == "check"]
+        ok = len(cks) == n and [w for w, _ in cks] == [f"e{k}" for k in range(n)]
+        pcs = [str(c_) for c_ in p.pc]
+        accepted = []
+        for k in range(n):
+            if ok:
+                want = ["cellbase"] + [f"tx_of_e{j}" for j in accepted]
+                if cks[k][1] != want:
+                    ok = False
+            if str(ok_b[k]) in pcs:
+                accepted.append(k)
+            elif str(T.not_(ok_b[k])) not in pcs:
+                ok = False
+        v = p.value
+        if ok and isinstance(v, EnumV) and v.disc == 0:
+            dao, kept, failed = v.payload(0)[0].fields
+            ok = ok and nm(None, kept) == "[" + ",".join(f"e{k}" for k in accepted) + "]"
+            ok = ok and isinstance(failed, ListV) and [nm(None, x.fields[0]) for x in failed.items] == [f"id_of_e{k}" for k in range(n) if k not in accepted]
+            daos = [e[2][0] for e in p.log if e[0] == "dao"]
+            ok = ok and len(daos) == 1 and re.findall(r"(cellbase_entry|e\d)\.rtx", daos[0]) == ["cellbase_entry"] + [f"e{k}" for k in accepted]
+        else:
+            ok = False
+        if os.environ.get("VERIF_DEBUG") and not ok:
+            print("DEBUG calc_dao", cks, str(v)[:200], [e[2] for e in p.log if e[0] == "dao"])
+        goals.append(T.implies(p.cond(), bool(ok)))
+    S.prove(ctx, ob, "each_entry_is_checked_against_cellbase_plus_the_entries_accepted_before_it_dropped_entries_are_reported_kept_order_dao_over_kept", [], T.and_(*goals) if goals else False)
+    S.prove(ctx, ob, "every_combination_of_failing_checks_is_explored", [], bool(len(returns(ps)) == 2 ** n))
+
+
+OBLIGATIONS = OBLIGATIONS + [m7_calc_dao_rechecks_against_what_is_in_the_template]
